@@ -13,6 +13,8 @@
 //       the owner's view after wait(): boot() [run(), steps, reboot()] teardown() wait(), then the owner
 //       reads the filter's results (plain state written by initialization_step / the steps) or destroys
 //       the filter at once.  wait() joins the filtering thread, so this is ordered — unless the join is lost.
+//                               initfail <kind> <seed>
+//       the filter's initialization_step() fails twice, slowly; run(), reset() and teardown() arrive meanwhile
 //   stdout:  ok kind=<kind> steps=<filter steps run> cmds=<commands issued> <command>=<count>… skip:<name>=<accepted>/<rejected>…
 //
 // The harness adds no synchronisation of its own between the two threads apart from counters that
@@ -124,10 +126,13 @@ public:
     HGauss(std::unique_ptr<GaussianPrediction> p, std::unique_ptr<GaussianCorrection> c)
         : GaussianFilter(std::move(p), std::move(c)), pred_(N), corr_(N) { }
 protected:
-    bool run_condition() override { return step_number() < 2000000000u; }
+    // the run condition reads plain state that filtering_step() mutates (both hooks belong to the filtering thread)
+    bool run_condition() override { return budget_ > 0 && step_number() < 2000000000u; }
     bool initialization_step() override {
         corr_.mean() << 0.5, -0.5;
         corr_.covariance() = 0.3 * MatrixXd::Identity(N, N);
+        budget_ = 2000000000L;
+        if (fail_inits_ > 0) { --fail_inits_; usleep(init_delay_us_); return false; }   // an initialisation that fails, slowly
         return true;
     }
     void filtering_step() override {
@@ -136,6 +141,7 @@ protected:
         correction().correct(pred_, corr_);
         if (!(corr_.covariance().allFinite() && corr_.mean().allFinite() && corr_.covariance().trace() < 1e6)) initialization_step();
         log();
+        --budget_;
         g_steps.fetch_add(1, std::memory_order_relaxed);
     }
     std::vector<std::string> log_file_names(const std::string& folder_path, const std::string& file_name_prefix) override {
@@ -144,6 +150,11 @@ protected:
     void log() override { logger(pred_.mean().transpose(), corr_.mean().transpose()); }
 public:
     double result() const { return corr_.mean()(0) + corr_.covariance()(0, 0) + pred_.mean()(0); }   // owner reads the estimate
+    void fail_initialisation(int times, long delay_us) { fail_inits_ = times; init_delay_us_ = delay_us; }   // before boot()
+private:
+    long budget_ = 2000000000L;
+    int fail_inits_ = 0;
+    long init_delay_us_ = 0;
 private:
     Gaussian pred_, corr_;
 };
@@ -152,7 +163,19 @@ class HSis : public SIS {
 public:
     using SIS::SIS;
 protected:
-    void filtering_step() override { SIS::filtering_step(); g_steps.fetch_add(1, std::memory_order_relaxed); }
+    void filtering_step() override { SIS::filtering_step(); --left_; g_steps.fetch_add(1, std::memory_order_relaxed); }
+    bool run_condition() override { return left_ > 0; }       // plain state mutated by the step
+    bool initialization_step() override {
+        left_ = 2000000000L;
+        bool ok = SIS::initialization_step();
+        if (fail_inits_ > 0) { --fail_inits_; usleep(init_delay_us_); return false; }
+        return ok;
+    }
+    long left_ = 2000000000L;
+    int fail_inits_ = 0;
+    long init_delay_us_ = 0;
+public:
+    void fail_initialisation(int times, long delay_us) { fail_inits_ = times; init_delay_us_ = delay_us; }
 public:
     double result() const { return pred_particle_.state(0, 0) + pred_particle_.weight(0) + cor_particle_.weight(0); }   // owner reads the particles
 };
@@ -292,6 +315,26 @@ static std::string run_extlog(const std::string& kind, unsigned seed, const std:
     return os.str();
 }
 
+// an initialisation that fails (slowly) while the controller already issues teardown()
+static std::string run_initfail(const std::string& kind, unsigned seed) {
+    std::unique_ptr<FilteringAlgorithm> f = make(kind, seed);
+    if (!f) return "bad-kind";
+    if (HGauss* g = dynamic_cast<HGauss*>(f.get())) g->fail_initialisation(2, 1500);
+    if (HSis* s = dynamic_cast<HSis*>(f.get())) s->fail_initialisation(2, 1500);
+    g_steps.store(0, std::memory_order_relaxed);
+    if (!f->boot()) return "boot-failed";
+    f->run();
+    usleep(300 + seed % 900);             // the first initialisation is in progress
+    (void) f->is_running(); (void) f->step_number();
+    f->reset();
+    usleep(200 + seed % 700);
+    f->teardown();
+    f->wait();
+    std::ostringstream os;
+    os << "ok initfail kind=" << kind << " steps=" << g_steps.load(std::memory_order_relaxed);
+    return os.str();
+}
+
 static double read_result(FilteringAlgorithm* f) {
     if (HGauss* g = dynamic_cast<HGauss*>(f)) return g->result();
     if (HSis* s = dynamic_cast<HSis*>(f)) return s->result();
@@ -336,6 +379,15 @@ int main() {
             try { out2 = run_afterwait(k2, s2, phase, action); }
             catch (const std::exception& e) { out2 = std::string("throw:") + e.what(); }
             std::cout << out2 << "\n" << std::flush;
+            continue;
+        }
+        if (op == "initfail") {
+            std::istringstream is4(line);
+            std::string o4, k4; unsigned s4 = 0;
+            is4 >> o4 >> k4 >> s4;
+            std::string out4;
+            try { out4 = run_initfail(k4, s4); } catch (const std::exception& e) { out4 = std::string("throw:") + e.what(); }
+            std::cout << out4 << "\n" << std::flush;
             continue;
         }
         if (op == "extlog") {
